@@ -25,9 +25,9 @@ META = {
         'is_in_window assigns a polygon index only to still-unassigned points, polygons ascending; C12.CAP-SIGN - '
         'is_in_cap is cap_distance >= 0 and cap_distance is negated exactly when cm < 0; C12.CAP-BIT - is_cap_used '
         'tests bit i, the same bit set_use_caps sets and the presets (1 << ncaps) - 1 cover; C12.DOUBLES - a duplicate '
-        'cap bit j > i is cleared only after re-testing that it is currently set (or idempotently). C12.DUP-SYM - both duplicate tests of set_use_caps are two-sided (absolute value); C12.DUP-COND - the condition under which a later cap is dropped equals same-cap OR (complement AND NOT allow_neg_doubles), decided by truth table over the three facts. NOT decided: the '
+        'cap bit j > i is cleared only after re-testing that it is currently set (or idempotently). C12.DUP-SYM - both duplicate tests of set_use_caps are two-sided (absolute value); C12.DUP-COND - the condition under which a later cap is dropped equals same-cap OR (complement AND NOT allow_neg_doubles), decided by truth table over the three facts. C12.ONE-CAP - is_in_polygon normalises the rank of XCAPS / CMCAPS of a raw FITS row the way ManglePolygon.__init__ does for rows with a single cap; NOT decided: the '
         'floating-point geometry itself, agreement across concrete files.'),
-    'floors': {'C12.COLUMNS': 3, 'C12.SLICES': 5, 'C12.ELEM-INDEX': 1, 'C12.ACOS-DOT': 1, 'C12.AND-ALL': 7, 'C12.CAP-SIGN': 2,
+    'floors': {'C12.ONE-CAP': 2, 'C12.COLUMNS': 3, 'C12.SLICES': 5, 'C12.ELEM-INDEX': 1, 'C12.ACOS-DOT': 1, 'C12.AND-ALL': 7, 'C12.CAP-SIGN': 2,
                'C12.CAP-BIT': 4, 'C12.DOUBLES': 2, 'C12.DUP-COND': 1, 'C12.DUP-SYM': 2},
 }
 
@@ -493,6 +493,8 @@ def check_and_all(ctx, repo):
             if isinstance(e, ast.Name):
                 rs = {role(v, depth + 1) if v is not None else None for d, v in fa.defs(e)}
                 return rs.pop() if len(rs) == 1 else None
+            if isinstance(e, ast.Call) and call_name(e) in ('atleast_1d', 'atleast_2d', 'asarray', 'array', 'ascontiguousarray') and e.args:
+                return role(e.args[0], depth + 1)          # same values, rank normalised
             return None
         call = st.value
         g_cap = repo.func(MANGLE, 'is_in_cap')
@@ -570,6 +572,33 @@ def check_and_all(ctx, repo):
                 and all(positive(gd) in (False, None) for k_, gd in lv if k_ == 'attr')
         ctx.check('C12.AND-ALL', okr and lim_ok, f, loop, 'caps visited: range(polygon.ncaps), or range(min(ncaps, polygon.ncaps)) when ncaps > 0',
                   msg='the cap loop does not visit range(min(ncaps, polygon.ncaps)) / range(polygon.ncaps): %s' % src(loop.iter), construct='cap range')
+    # ONE-CAP: the two readers of a raw FITS polygon record agree on its shape cases.  ManglePolygon.__init__ special-cases a record with
+    # exactly one cap (XCAPS a bare 3-vector, CMCAPS a scalar); is_in_polygon, which indexes x[icap, :] and cm[icap] on the raw record, must
+    # bring both to the same rank first
+    f_init = repo.func(MANGLE, 'ManglePolygon.__init__')
+    special = [c for c in walk_local(f_init.node) if isinstance(c, ast.Compare) and len(c.ops) == 1 and isinstance(c.ops[0], ast.Eq)
+               and any(isinstance(x, ast.Attribute) and x.attr == 'shape' for x in (c.left, c.comparators[0]))
+               and any(isinstance(x, ast.Tuple) for x in (c.left, c.comparators[0]))]
+    if special and ands:
+        def normalised(what):
+            """some definition on the way to the cap test brings the `what` value to a fixed rank."""
+            for n in walk_local(f.node):
+                if isinstance(n, ast.Call) and call_name(n) in ('atleast_2d', 'atleast_1d', 'reshape') and n.args is not None:
+                    inner = n.args[0] if (n.args and call_name(n) != 'reshape') else (n.func.value if isinstance(n.func, ast.Attribute) and not (
+                        isinstance(n.func.value, ast.Name) and n.func.value.id in ('np', 'numpy')) else (n.args[0] if n.args else None))
+                    if inner is not None and role(inner) == what:
+                        return n
+                if isinstance(n, ast.Compare) and any(isinstance(x, ast.Attribute) and x.attr in ('shape', 'ndim') and role(x.value) == what
+                                                      for x in [n.left] + list(n.comparators)):
+                    return n
+            return None
+        for what, col in (('x', 'XCAPS'), ('cm', 'CMCAPS')):
+            nrm = normalised(what)
+            ctx.check('C12.ONE-CAP', nrm is not None, f, nrm if nrm is not None else ands[0],
+                      'is_in_polygon brings %s to a fixed rank before indexing it per cap (%s), like the constructor\'s one-cap case' % (col, src(nrm)[:40] if nrm is not None else ''),
+                      msg='ManglePolygon.__init__ accepts a FITS polygon row with exactly one cap (%s stored without the cap axis, `%s`) but is_in_polygon indexes '
+                          'the raw row per cap without that case: the raw table raises IndexError where the converted one answers' % (col, src(special[0])[:40]),
+                      construct='one-cap record: %s indexed per cap' % col)
     # is_in_window
     g = repo.func(MANGLE, 'is_in_window')
     ctx.cover(f, g)
